@@ -429,6 +429,9 @@ def run(c, facts):
     import c08
     R8 = c.rule('C04.R8', 'GRAPH-COMPLETE: every use adds a dependency edge, so every cycle is seen (shared with C08.R2)')
     c.shared(R8, c08.r2_pairing, 'C08.R2', facts)
+    c.shared(R8, c08.r3_eager, 'C08.R3', facts)      # a parameter bound to the wrong argument hands a cast a value of another kind
+    import c01 as _c01x
+    c.run(lambda c: _c01x.r16_eval_panic(c, facts, rule='C04.R14'))
     c.run(lambda c: r9_emit_total(c, facts))
     import c09
     R10 = c.rule('C04.R10', 'RECURSION-SAFE: a recursive program is either rejected or evaluated without running away: the cycle check is a fix-point that never cuts at an unresolved tag, and every cast that takes schema values takes the recursion marker (shared with C09.R3/R5)')
